@@ -100,3 +100,21 @@ Print Assumptions C01_split_act_inv_partial.
 Theorem C01_no_final_throw_partial s : inactive_sat s -> final_scan s = Ok s.
 Proof. exact (final_scan_no_throw_partial s). Qed.
 Print Assumptions C01_no_final_throw_partial.
+
+(* act_inv is decidable on a concrete state; the checks evaluate it on every state the model returns and (in C++) on
+   every state of the real solver, which validates on each run the part whose preservation by split is not proved *)
+Theorem C01_act_invb_spec s : act_invb s = true <-> act_inv s.
+Proof. exact (act_invb_spec s). Qed.
+Print Assumptions C01_act_invb_spec.
+
+(* the contract for a returned state that passes the check: every unflagged constraint holds to -1e-10, active ones
+   (in particular every merged equality) exactly *)
+Theorem C01_contract_checked fuel s o s' :
+  run_result o fuel s s' ->
+  wf_cons (svars s') (scons s') -> wf_vars (svars s') ->
+  act_invb s' = true ->
+  forall k, (k < length (scons s'))%nat -> uns_of s' k = false ->
+    let sl := slackv (svars s') (place_of (final_positions s')) (con_of s' k) in
+    ZERO_UPPERBOUND <= sl /\ (act_of s' k = true -> sl == 0).
+Proof. exact (contract_checked fuel s o s'). Qed.
+Print Assumptions C01_contract_checked.
